@@ -311,7 +311,7 @@ func TestC05(t *testing.T) {
 	rec.Describe("two families. struct: a jsonschema.Schema value whose exported fields (table obtained by reflection) are populated in every way their Go types allow — nil, empty non-nil, pointer-to-nil const, nested to depth 2 — under the documented exclusivity rules (Type xor Types, Items xor ItemsArray, Defs xor Definitions, disjoint dependency maps, duplicate-free PropertyOrder, Extra keys disjoint from keywords, incl. case variants of keywords); oracle: Marshal/Unmarshal/Marshal bytes (JSON value when a PropertyOrder is set), Resolve symmetric, identical verdict vectors on 4 instances. doc: schema document of either draft from the C01/C02 grammar plus unknown keywords; oracle: Marshal(Unmarshal(doc)) == doc as a JSON value after the documented normalisations, and identical verdicts for doc, its re-marshaled form and the reference evaluator. Non-trivial: >=3 populated fields / keywords at the root. Distinct = distinct (schema, instance).",
 		"Vocabulary is left nil in struct cases (it is only resolvable beside the 2020-12 $schema value); $schema below the root and references are not set in struct cases (C03/C06/C17 cover references)",
 		"float fields are finite, integer fields lie within int32")
-	rapid.Check(t, propC05(rec))
+	rapid.Check(t, watched("C05", propC05(rec)))
 }
 
 // writeWithShadowedMembers writes v as JSON text; inside the value of a keyword that maps names to
